@@ -60,7 +60,7 @@ end
 def gnVarDef (x : X) (v : VarDef) : List (Node × X) :=
   (.varDef v, down (.varDef v) x) ::
     ((match v.default with | some dv => gnValue down (down (.varDef v) x) dv | none => []) ++
-      [(.typeNode v.type, down (.typeNode v.type) (down (.varDef v) x))])
+      (.typeNode v.type, down (.typeNode v.type) (down (.varDef v) x)) :: gnDirs down (down (.varDef v) x) v.dirs)
 
 def gnDef (x : X) : Def → List (Node × X)
   | .op kind name vars dirs id sels =>
@@ -93,6 +93,7 @@ def ancDown : Node → List Anc → List Anc
   | .spread .., x => .spread :: x
   | .inline .., x => .inline :: x
   | .fragmentDef .., x => .fragDef :: x
+  | .varDef _, x => .varDef :: x
   | _, x => x
 
 /-- **5.7.1 / 5.7.2 Directives are defined and used in a location they list** -/
